@@ -210,17 +210,20 @@ extern "C" void harness()
 {
 	D * d = new D();
 	TCb base(1);
-	d->appendListener(1, [base](uint32_t a) { base(a); });
+	D::Handle hbase = d->appendListener(1, [base](uint32_t a) { base(a); });
 	int n = 1;
 	unsigned op = vf_choose(6);
-	if(op == 0) {                               // appendListener: strong guarantee
+	unsigned how = op <= 1 ? vf_choose(3) : 0;  // registered through append / prepend / insert-before
+	if(op == 0) {                               // add a listener: strong guarantee
 		TCb cb(2);
-		bool failed = with_faults([&]() { d->appendListener(1, [cb](uint32_t a) { cb(a); }); });
+		bool failed = with_faults([&]() {
+			if(how == 0) d->appendListener(1, [cb](uint32_t a) { cb(a); }); else if(how == 1) d->prependListener(1, [cb](uint32_t a) { cb(a); }); else d->insertListener(1, [cb](uint32_t a) { cb(a); }, hbase); });
 		if(! failed) n++; else vf_cover(COV_STRONG_OP_FAILED);
 	}
-	else if(op == 1) {                          // appendListener on a NEW event: the map grows
+	else if(op == 1) {                          // add a listener of a NEW event: the map grows
 		TCb cb(2);
-		bool failed = with_faults([&]() { d->appendListener(2, [cb](uint32_t a) { cb(a); }); });
+		bool failed = with_faults([&]() {
+			if(how == 0) d->appendListener(2, [cb](uint32_t a) { cb(a); }); else if(how == 1) d->prependListener(2, [cb](uint32_t a) { cb(a); }); else d->insertListener(2, [cb](uint32_t a) { cb(a); }, D::Handle()); });
 		int n2 = 0; d->forEach(2, [&](const D::Callback &) { n2++; });
 		vf_assert(n2 == (failed ? 0 : 1), 450);
 	}
@@ -256,6 +259,7 @@ extern "C" void harness()
 	vf_assert(count_listeners(*d) == n, 457);
 	g_tr.clear(); d->dispatch(1, 9u);
 	vf_assert(g_tr.n == n, 458);                 // stays fully usable
+	hbase = D::Handle();
 	delete d;
 	vf_assert(g_bad == 0, 459);
 	vf_end();
